@@ -56,13 +56,14 @@ func (v *SimVault) beforeWrite(label string) (bool, error) {
 	fail := w.failWrite > 0 && w.totalWrite == w.failWrite
 	w.mu.Unlock()
 	if crash {
+		w.mu.Lock()
+		w.crashCount++
+		w.mu.Unlock()
 		w.Log(Event{Gen: v.gen, Kind: EvCrash, Note: fmt.Sprintf("before write %d: %s", n, label)})
 		w.fault("crash")
+		sig := w.CrashSig(v.gen)
 		w.Kill()
-		select {
-		case w.crashCh <- struct{}{}:
-		default:
-		}
+		close(sig)
 		return false, nil
 	}
 	if fail {
